@@ -167,6 +167,8 @@ type Explorer struct {
 	samplesN  int
 	pinned    map[string]any
 	initial   []int
+	violSeen  map[string]int
+	violTotal int
 }
 
 func (e *Explorer) Run() *HarnessResult {
@@ -373,7 +375,14 @@ func (e *Explorer) merge(m *Machine) {
 		r.Horizon++
 	}
 	for _, v := range m.violations {
-		if len(r.Violations) < 50 {
+		key := v.Kind + "|" + v.Label + "|" + v.Detail
+		if e.violSeen == nil {
+			e.violSeen = map[string]int{}
+		}
+		e.violSeen[key]++
+		e.violTotal++
+		// keep every distinct (label, detail) class, at most 3 instances each
+		if e.violSeen[key] <= 3 && len(r.Violations) < 600 {
 			r.Violations = append(r.Violations, v)
 		}
 	}
